@@ -651,7 +651,8 @@ impl<'a> Interp<'a> {
             Expr::Int { value } => {
                 let x = *value as i64;
                 if !(INT_MIN..=INT_MAX).contains(&x) {
-                    return Err(Stop::Unspec("U9"));
+                    // a literal outside the integer range must be refused (C06: never a wrong value)
+                    return Err(Stop::Err(MErr::Any));
                 }
                 V::Int(x)
             }
